@@ -1,23 +1,56 @@
 #!/usr/bin/env python3
-"""tools/oracle_eval.py <ID> [--budget S] : how good is the native oracle of one property?
+"""tools/oracle_eval.py <ID> [--budget S] [--half py|c] : how good is the native oracle of one property?
 Runs it on the unchanged tree (must be clean), on every seeded change and catalogue mutant of that property (should fail = caught),
-and on every harmless edit (must be clean).  Scratch copies under a mktemp dir, removed afterwards."""
+and on every harmless edit (must be clean).  Scratch copies under a mktemp dir, removed afterwards.
+An ID may have two halves: oracles/<ID>.py (Python toolkit) and oracles/c_<ID>.py (C code); both are run and merged (cases summed, failures
+concatenated) unless --half selects one.  The C-side mutants are the MUTANTS lists of props/cparts/<ID>.py."""
 import sys, os, subprocess, json, glob, tempfile, shutil
 HERE = os.path.dirname(os.path.dirname(os.path.abspath(__file__)))
 sys.path.insert(0, HERE)
 from mutants.catalogue import MUTANTS, HARMLESS
 pid = sys.argv[1]
 budget = sys.argv[sys.argv.index("--budget") + 1] if "--budget" in sys.argv else "20"
+half = sys.argv[sys.argv.index("--half") + 1] if "--half" in sys.argv else None
+if pid.startswith("c_"):
+    pid, half = pid[2:], "c"
+HALVES = [m for m, h in ((pid, "py"), ("c_" + pid, "c")) if (half in (None, h)) and os.path.exists(os.path.join(HERE, "oracles", m + ".py"))]
+if not HALVES:
+    print("no oracle for %s" % pid)
+    sys.exit(3)
 
 
-def oracle(repo):
+def oracle_one(mod, repo):
     env = dict(os.environ, VERIF_REPO=repo, PYTHONPATH=HERE)
-    r = subprocess.run(["python3-vt", "-m", "oracles.run", pid, "--budget", budget], cwd=HERE, env=env, capture_output=True, text=True)
+    r = subprocess.run(["python3-vt", "-m", "oracles.run", mod, "--budget", budget], cwd=HERE, env=env, capture_output=True, text=True)
     try:
         d = json.loads(r.stdout)
     except Exception:
         d = {"crash": (r.stdout + r.stderr)[-800:]}
     return r.returncode, d
+
+
+def oracle(repo):
+    """both halves merged: rc 1 if any half found a failure, else 3 if any crashed, else 0"""
+    rcs, merged = [], {"cases": 0, "failures": []}
+    for m in HALVES:
+        rc, d = oracle_one(m, repo)
+        rcs.append(rc)
+        merged["cases"] += d.get("cases") or 0
+        merged["failures"] += d.get("failures") or []
+        if d.get("crash"):
+            merged["crash"] = (merged.get("crash", "") + " [%s] " % m + d["crash"])[-800:]
+    return (1 if 1 in rcs else 3 if 3 in rcs else max(rcs)), merged
+
+
+def c_mutants():
+    if "c_" + pid not in HALVES:
+        return []
+    r = subprocess.run(["python3-vt", "-c", "import json, importlib; m = importlib.import_module('props.cparts.%s'); print(json.dumps([list(x) for x in getattr(m, 'MUTANTS', [])]))" % pid],
+                       cwd=HERE, env=dict(os.environ, PYTHONPATH=HERE), capture_output=True, text=True)
+    try:
+        return json.loads(r.stdout.strip().splitlines()[-1])
+    except Exception:
+        return []
 
 
 def scratch(edit=None, patch=None):
@@ -51,14 +84,25 @@ for sd in sorted(glob.glob(HERE + "/seeded/%s-*" % pid)):
         bad += not show("seed " + os.path.basename(sd), "caught", rc, d)
     finally:
         shutil.rmtree(tmp, ignore_errors=True)
-for name, f, old, new in MUTANTS.get(pid, []):
+for name, f, old, new in (MUTANTS.get(pid, []) if pid in HALVES else []):
     tmp = scratch(edit=(f, old, new))
     try:
         rc, d = oracle(tmp)
         bad += not show("mutant " + name, "caught", rc, d)
     finally:
         shutil.rmtree(tmp, ignore_errors=True)
-for name, f, old, new in HARMLESS.get(pid, []):
+for f, old, new, expect in c_mutants():
+    try:
+        tmp = scratch(edit=(f, old, new))
+    except AssertionError:
+        print("skip C mutant (edit no longer applies): %r" % old[:50])
+        continue
+    try:
+        rc, d = oracle(tmp)
+        bad += not show("C mutant %s: %s -> %s" % (expect, old.strip()[:20], new.strip()[:20]), "caught", rc, d)
+    finally:
+        shutil.rmtree(tmp, ignore_errors=True)
+for name, f, old, new in (HARMLESS.get(pid, []) if pid in HALVES else []):
     tmp = scratch(edit=(f, old, new))
     try:
         rc, d = oracle(tmp)
@@ -66,7 +110,11 @@ for name, f, old, new in HARMLESS.get(pid, []):
     finally:
         shutil.rmtree(tmp, ignore_errors=True)
 for df in sorted(glob.glob(HERE + "/mutants/harmless/%s/*.diff" % pid)):
-    tmp = scratch(patch=df)
+    try:
+        tmp = scratch(patch=df)
+    except AssertionError as e:
+        print("skip harmless %s (patch does not apply to the current tree: %s)" % (os.path.basename(df), str(e).strip()[:80]))
+        continue
     try:
         rc, d = oracle(tmp)
         bad += not show("harmless " + os.path.basename(df), "clean", rc, d)
